@@ -463,6 +463,28 @@ func sources(v ssa.Value) []ssa.Value {
 		case *ssa.UnOp:
 			if x.Op == token.MUL {
 				root := cellRoot(x.X)
+				// a variable captured by an immediately-invoked literal: the cell lives in the enclosing function
+				if fv, isFV := x.X.(*ssa.FreeVar); isFV {
+					if g := fv.Parent(); g != nil {
+						if site := iifeSiteCached(g); site != nil {
+							if mc, ok := site.Call.Value.(*ssa.MakeClosure); ok {
+								for i, b := range g.FreeVars {
+									if b == fv && i < len(mc.Bindings) {
+										if al, isAl := mc.Bindings[i].(*ssa.Alloc); isAl {
+											st, _, esc := cellStores(al)
+											if !esc && len(st) > 0 {
+												for _, sv := range st {
+													walk(sv)
+												}
+												return
+											}
+										}
+									}
+								}
+							}
+						}
+					}
+				}
 				if _, isAlloc := root.(*ssa.Alloc); isAlloc {
 					st, stores, esc := cellStores(x.X)
 					if !esc {
@@ -619,6 +641,137 @@ func noWriteBetween(a, b ssa.Instruction) bool {
 	return true
 }
 
+// noWriteOnPaths: no store, map update, non-builtin call, defer or go lies on any path from a to b
+// (a dominates b).
+func noWriteOnPaths(a, b ssa.Instruction) bool {
+	isWriter := func(in ssa.Instruction) bool {
+		switch x := in.(type) {
+		case *ssa.Store, *ssa.Defer, *ssa.Go, *ssa.MapUpdate, *ssa.Send, *ssa.RunDefers:
+			return true
+		case *ssa.Call:
+			if _, isBuiltin := x.Call.Value.(*ssa.Builtin); !isBuiltin {
+				if callee := x.Call.StaticCallee(); callee != nil && callee.Pkg != nil && !inSSEPackage(callee) && x.Call.Signature().Recv() == nil {
+					// a plain function of another package (strings, strconv, …) cannot write the module's state
+					return false
+				}
+				if callee := x.Call.StaticCallee(); callee != nil && isPureModuleFunc(callee) {
+					return false
+				}
+				return true
+			}
+		}
+		return false
+	}
+	ba, bb := a.Block(), b.Block()
+	// blocks on some path from a to b: forward-reachable from a's successors and backward-reachable from b
+	fwd := reach(ba.Succs, nil, nil)
+	back := map[*ssa.BasicBlock]bool{bb: true}
+	stack := []*ssa.BasicBlock{bb}
+	for len(stack) > 0 {
+		x := stack[len(stack)-1]
+		stack = stack[:len(stack)-1]
+		for _, p := range x.Preds {
+			if !back[p] {
+				back[p] = true
+				stack = append(stack, p)
+			}
+		}
+	}
+	for i := instrIndex(a) + 1; i < len(ba.Instrs); i++ {
+		if isWriter(ba.Instrs[i]) {
+			return false
+		}
+	}
+	for i := 0; i < instrIndex(b); i++ {
+		if isWriter(bb.Instrs[i]) {
+			return false
+		}
+	}
+	for blk := range fwd {
+		if !back[blk] || blk == bb || blk == ba {
+			continue
+		}
+		for _, in := range blk.Instrs {
+			if isWriter(in) {
+				return false
+			}
+		}
+	}
+	// b's block reachable again from itself (a loop around b) or a's block re-entered: be conservative
+	if fwd[ba] && back[ba] && ba != bb {
+		for _, in := range ba.Instrs {
+			if isWriter(in) {
+				return false
+			}
+		}
+	}
+	return true
+}
+
+// isPureModuleFunc: a module function without pointer receiver/parameters to module state that only
+// computes on strings and integers (NewlineIndex, isNewlineChar, NextChunk, trimFirstSpace, …).
+func isPureModuleFunc(f *ssa.Function) bool {
+	if f.Blocks == nil || f.Signature.Recv() != nil {
+		return false
+	}
+	for i := 0; i < f.Signature.Params().Len(); i++ {
+		switch t := f.Signature.Params().At(i).Type().Underlying().(type) {
+		case *types.Basic:
+		default:
+			_ = t
+			return false
+		}
+	}
+	pure := true
+	eachInstr(f, func(in ssa.Instruction) {
+		switch x := in.(type) {
+		case *ssa.Store:
+			if _, isAlloc := cellRoot(x.Addr).(*ssa.Alloc); !isAlloc {
+				pure = false
+			}
+		case *ssa.MapUpdate, *ssa.Send, *ssa.Go, *ssa.Defer:
+			pure = false
+		case *ssa.Call:
+			if _, isBuiltin := x.Call.Value.(*ssa.Builtin); isBuiltin {
+				return
+			}
+			callee := x.Call.StaticCallee()
+			if callee == nil || callee == f {
+				pure = false
+				return
+			}
+			if inSSEPackage(callee) && !isPureModuleFuncShallow(callee) {
+				pure = false
+			}
+		}
+	})
+	return pure
+}
+
+func isPureModuleFuncShallow(f *ssa.Function) bool {
+	if f.Blocks == nil || f.Signature.Recv() != nil {
+		return false
+	}
+	ok := true
+	eachInstr(f, func(in ssa.Instruction) {
+		switch x := in.(type) {
+		case *ssa.Store:
+			if _, isAlloc := cellRoot(x.Addr).(*ssa.Alloc); !isAlloc {
+				ok = false
+			}
+		case *ssa.MapUpdate, *ssa.Send, *ssa.Go, *ssa.Defer:
+			ok = false
+		case *ssa.Call:
+			if _, isBuiltin := x.Call.Value.(*ssa.Builtin); !isBuiltin {
+				if callee := x.Call.StaticCallee(); callee == nil || inSSEPackage(callee) {
+					ok = false
+				}
+			}
+		}
+	})
+	return ok
+}
+
 // sameValue: structural equality of pure SSA values (go/ssa does no CSE).
 // Loads are equal only if they are the same instruction, or loads of the same
 // never-reassigned cell (a cell with at most one store).
@@ -667,6 +820,15 @@ func sameValue(a, b ssa.Value) bool {
 		if sameAddr(x.X, y.X) {
 			if x.Block() == y.Block() && noWriteBetween(x, y) {
 				return true
+			}
+			if x.Parent() == y.Parent() && x.Block() != y.Block() {
+				// one load dominates the other and nothing that can write lies on any path between them
+				if x.Block().Dominates(y.Block()) && noWriteOnPaths(x, y) {
+					return true
+				}
+				if y.Block().Dominates(x.Block()) && noWriteOnPaths(y, x) {
+					return true
+				}
 			}
 			root := cellRoot(x.X)
 			if _, isAlloc := root.(*ssa.Alloc); isAlloc {
